@@ -203,7 +203,12 @@ type replayResult struct {
 func runReplay(bin, id, path string) replayResult {
 	ctx, cancel := context.WithTimeout(context.Background(), 5*time.Minute)
 	defer cancel()
-	cmd := exec.CommandContext(ctx, bin, "-test.run", "^Test", "-test.timeout", "0", "-test.count=1")
+	targs := fmt.Sprintf("%q -test.run '^Test' -test.timeout 0 -test.count=1", bin)
+	sh := "exec " + targs
+	if mk := cfgFor(id).MemKB; mk > 0 {
+		sh = fmt.Sprintf("ulimit -v %d; exec %s", mk, targs)
+	}
+	cmd := exec.CommandContext(ctx, "sh", "-c", sh)
 	cmd.Env = append(env(), "VERIF_REPLAY="+path, "VERIF_PROP="+id, "GORACE=halt_on_error=1")
 	cmd.Dir = pkgDir(id)
 	ob, err := cmd.CombinedOutput()
@@ -486,7 +491,7 @@ func runCheck(id, tier string) int {
 				}
 				_ = os.Remove(dst)
 			}
-			fmt.Fprintf(os.Stderr, "shard %d exited %d without a failing case; output:\n%s\n", oc.idx, oc.exit, tail(oc.output, 60))
+			fmt.Fprintf(os.Stderr, "shard %d exited %d without a failing case; output (head, tail):\n%s...\n%s\n", oc.idx, oc.exit, head(oc.output, 40), tail(oc.output, 25))
 			inconclusive = append(inconclusive, fmt.Sprintf("shard %d died (exit %d)", oc.idx, oc.exit))
 		}
 	}
@@ -543,7 +548,7 @@ func runCheck(id, tier string) int {
 				m.Discards[k] += v
 			}
 			for k, v := range s.Extra {
-				if f, ok := v.(float64); ok {
+				if f, ok := v.(float64); ok && strings.HasPrefix(k, "sum_") {
 					if pf, ok := m.Extra[k].(float64); ok {
 						m.Extra[k] = pf + f
 					} else {
@@ -711,6 +716,14 @@ func readAssumptions(id string) []string {
 		}
 	}
 	return out
+}
+
+func head(s string, n int) string {
+	lines := strings.Split(s, "\n")
+	if len(lines) > n {
+		lines = lines[:n]
+	}
+	return strings.Join(lines, "\n") + "\n"
 }
 
 func tail(s string, n int) string {
